@@ -25,20 +25,43 @@ def qstr(x):
 
 
 class LazyUniform(float):
-    """Result of random.random(): an exact uniform real on [0,1) that can only be compared with a
-    threshold; the comparison forks (P(U <= p) = P(U < p) = p clipped to [0,1]).  It is a float
-    (so that Scenic can record it in a replay log) but refuses arithmetic."""
+    """Result of random.random(): ONE exact uniform real U on [0,1) that can only be compared with
+    thresholds.  The object remembers the interval [lo, hi) U is known to lie in: the first
+    comparison forks with P(U <= p) = P(U < p) = p clipped to [0,1]; every later comparison of the
+    SAME draw is answered consistently (decided by the interval, or a fork with the conditional
+    probability (p - lo)/(hi - lo)), so that two tests sharing one draw are perfectly correlated,
+    exactly as with a real float.  The call is logged at the position of the random() call itself
+    (`B,?` until it is first compared, then `B,p,k`); later comparisons of the same draw are logged
+    as `B+,p,k`.  It is a float (so that Scenic can record it in a replay log) but refuses
+    arithmetic."""
 
     def __new__(cls, oracle):
         self = super().__new__(cls, 0.5)
         self._o = oracle
+        self._lo, self._hi = Fraction(0), Fraction(1)
+        self._slot = oracle.reserve("B,?")
+        self._compared = False
         return self
 
     def _bern(self, p, truth_on_below):
         p = Fraction(p)
-        pc = min(max(p, Fraction(0)), Fraction(1))
-        k = self._o.fork("B," + qstr(p), [pc, 1 - pc])
+        if not self._compared:
+            self._compared = True
+            pc = min(max(p, Fraction(0)), Fraction(1))
+            k = self._o.fork("B," + qstr(p), [pc, 1 - pc], slot=self._slot)
+        elif p >= self._hi:
+            k = self._o.fork("B+," + qstr(p), [Fraction(1), Fraction(0)])
+        elif p <= self._lo:
+            k = self._o.fork("B+," + qstr(p), [Fraction(0), Fraction(1)])
+        else:
+            w = self._hi - self._lo
+            k = self._o.fork("B+," + qstr(p), [(p - self._lo) / w, (self._hi - p) / w])
         below = k == 0
+        pc = min(max(p, Fraction(0)), Fraction(1))
+        if below:
+            self._hi = min(self._hi, pc)
+        else:
+            self._lo = max(self._lo, pc)
         return below if truth_on_below else not below
 
     def __le__(self, p):
@@ -73,7 +96,12 @@ class Oracle:
         self.log = []
         self.prob = Fraction(1)
 
-    def fork(self, label, probs):
+    def reserve(self, placeholder):
+        """a log entry for an RNG call whose outcome is decided later (at its first comparison)"""
+        self.log.append(placeholder)
+        return len(self.log) - 1
+
+    def fork(self, label, probs, slot=None):
         possible = [i for i, p in enumerate(probs) if p > 0]
         if not possible:
             raise Unsupported("RNG call with no possible outcome: " + label)
@@ -87,7 +115,10 @@ class Oracle:
         self.path.append(k)
         self.alts.append([i for i in possible if i > k])
         self.prob *= probs[k]
-        self.log.append(f"{label},{k}")
+        if slot is None:
+            self.log.append(f"{label},{k}")
+        else:
+            self.log[slot] = f"{label},{k}"
         return k
 
 
